@@ -13,7 +13,7 @@ PROPERTY = "C12"
 BUDGET_S = {"quick": 900, "thorough": 3400}
 STUBS = ["VirtualLoop (symbolic arrival instant and iteration)", "random.uniform: symbolic tick counts inside the windows", "struct/bytes/enum lowering (all four id/version fields of the request are symbolic bytes)"]
 ASSUMPTIONS = [
-    "a request arriving while an instance's first offer sits in the send collector (queued, not yet transmitted), or at the very tick of its first offer / of a stop, may or may not be answered: both accepted",
+    "only the first instance's initial delay is symbolic (the others start after 30 / 70 ms)", "a request arriving while an instance's first offer sits in the send collector (queued, not yet transmitted), or at the very tick of its first offer / of a stop, may or may not be answered: both accepted",
     "initial-delay window 0..100 ms, request-response window 10..50 ms, repetitions 1 at 10 ms, cyclic 1 s; instants are multiples of 1 ms",
 ]
 REACH = {"H12": ["h12.answered", "h12.silent", "h12.end"]}
@@ -21,25 +21,41 @@ INSTS = [(0x1234, 1, 2, 7), (0x1234, 2, 2, 7), (0x1235, 1, 1, 0)]
 
 
 def bounds(tier):
-    return {"H12": "%d instances with differing ids/versions; FindService service/instance 16-bit, major 8-bit, minor 32-bit fully symbolic (every wildcard combination included); channel symbolic; arrival instant symbolic in 0..1500 ms (initial wait, repetition and cyclic phase); optional stop of instance 1 at a symbolic instant; TTL {3, infinite} x collection timeout {0, 5 ms}" % (3 if tier == "thorough" else 2)}
+    return {"H12": "family 'fields': %d instances with differing ids/versions, FindService service/instance 16-bit, major 8-bit, minor 32-bit, TTL fully symbolic (every wildcard combination included), channel symbolic, arrival at 0 / 25 / 500 / 1040 ms (initial wait, between first offers, repetition done, cyclic phase), TTL {3, infinite} x collection timeout {0, 5 ms}; family 'times': request from {exact, all wildcards, other service, other minor}, arrival instant symbolic in 0..1500 ms, initial delay and request-response delay symbolic, optional stop of the instance at a symbolic instant, channel symbolic, %s" % ((3, "1..2 instances") if tier == "thorough" else (2, "1 instance"))}
+
+
+FINDS = {"exact": (0x1234, 1, 2, 7), "wild": (0x1234, 0xFFFF, 0xFF, 0xFFFFFFFF), "other": (0x1235, 1, 2, 7), "minor": (0x1234, 1, 2, 8)}
 
 
 def cases(tier, seed):
     out = []
     n = 3 if tier == "thorough" else 2
+    # family A (inputs): every field of the request symbolic, arrival at fixed instants
     for ttl in (3, TTL_FOREVER):
         for col in (0, 5):
-            for stop in (0, 1):
-                if tier == "quick" and ttl == TTL_FOREVER and (col == 5 or stop):
+            for at in (0, 25, 500, 1040):
+                if tier == "quick" and ttl == TTL_FOREVER and col == 5:
                     continue
-                out.append({"h": "H12", "n": n, "ttl": ttl, "collect": col, "stop": stop, "_w": 5})
+                out.append({"h": "H12", "fam": "fields", "n": n, "ttl": ttl, "collect": col, "stop": 0, "at": at, "_w": 3})
+    # family B (schedules): arrival/stop instants, initial delay and response delay symbolic,
+    # request from a small alphabet
+    for find in FINDS:
+        for col in (0, 5):
+            for stop in (0, 1):
+                for nn in ((1, 2) if tier == "thorough" else (1,)):
+                    if tier == "quick" and find in ("other", "minor") and (stop or col):
+                        continue
+                    out.append({"h": "H12", "fam": "times", "n": nn, "ttl": 3, "collect": col, "stop": stop, "find": find, "_w": 8 * nn})
     return out
 
 
 def h12(E, M, case):
     loop = new_loop(E)
     sd, cfg, hdr = M.sd, M.config, M.header
-    drawn = stub_uniform(E, M)
+    # the instance under test (first one) draws a symbolic initial delay; the others get
+    # fixed ones so that only one instance's phase boundaries are symbolic
+    fam = case["fam"]
+    drawn = stub_uniform(E, M, fixed=lambda lo, hi, n: (None if (n == 1 and fam == "times") or (lo, hi) != (0, 100) else {1: 20, 2: 30, 3: 70}.get(n, 50)))
     C, ttl = case["collect"], case["ttl"]
     tm = sd.Timings(INITIAL_DELAY_MIN=0.0, INITIAL_DELAY_MAX=0.1, REQUEST_RESPONSE_DELAY_MIN=0.01, REQUEST_RESPONSE_DELAY_MAX=0.05, REPETITIONS_MAX=1, REPETITIONS_BASE_DELAY=0.01, CYCLIC_OFFER_DELAY=1, ANNOUNCE_TTL=ttl, SEND_COLLECTION_TIMEOUT=C / 1000 if C else 0)
     prot = sd.ServiceDiscoveryProtocol(MC, timings=tm)
@@ -54,11 +70,15 @@ def h12(E, M, case):
         insts.append(inst)
         loop.call(ann.announce_service, inst)
     loop.call(ann.start)
-    fs, fi = E.int("f_service", 0, 0xFFFF), E.int("f_instance", 0, 0xFFFF)
-    fm, fn = E.int("f_major", 0, 0xFF), E.int("f_minor", 0, 0xFFFFFFFF)
-    fttl = E.int("f_ttl", 0, 0xFFFFFF)
+    if case["fam"] == "fields":
+        fs, fi = E.int("f_service", 0, 0xFFFF), E.int("f_instance", 0, 0xFFFF)
+        fm, fn = E.int("f_major", 0, 0xFF), E.int("f_minor", 0, 0xFFFFFFFF)
+        fttl = E.int("f_ttl", 0, 0xFFFFFF)
+    else:
+        fs, fi, fm, fn = FINDS[case["find"]]
+        fttl = 3
     data = mk(E, wire.sd_message(1, 0xC0, [wire.sd_entry_bytes(wire.T_FIND, 0, 0, 0, 0, fs, fi, fm, fttl, fn)], []))
-    tf = E.int("t_find", 0, 1500)
+    tf = case["at"] if case["fam"] == "fields" else E.int("t_find", 0, 1500)
     mc = E.flag("multicast")
     sc = Script(loop, E)
     ts = None
